@@ -61,6 +61,9 @@ Steps:
    Find something clearly different, in a different function if possible, and as SUBTLE as you can: the
    defect must only show under a rare, specific combination and must not be exposed by simple use.
    Directions worth considering for this property: {HINTS[p]}.
+   Earlier attempts concentrated on the replay loop, GC ordering and the frame reader: prefer other places if the
+   property allows it - the in-memory queue (`src/mem`), the rolling buffer, record (de)serialisation in
+   `src/record.rs`, the writer's BufWriter / offset bookkeeping, persist-policy state, summary / resource-usage code.
    A plausible maintainer mistake (refactor, "optimisation", tidy-up, boundary condition) is ideal.
 4. Write a demonstration that FAILS with your change and PASSES without it. Preferably a Rust integration test
    {root}/{p}/tests/seeded_demo.rs using the public API of `mrecordlog` + `tempfile` (already a
